@@ -33,7 +33,7 @@ ANCHOR_FILES = ("_core", "_actions", "_typehints", "_common", "_link_arguments",
 NO_SHRINK = ("parsers/*/opts", "parsers/*/opts/*", "world", "pristine")
 SHRINK_DICTS = ("world/files", "world/env")
 
-FEATURES = ["l", "uif", "dd", "hd", "base", "bdef", "ilink", "nlink", "model", "fn", "probe", "cfg", "sub", "dcf", "env", "lst"]
+FEATURES = ["l", "uif", "dd", "hd", "base", "bdef", "ilink", "nlink", "model", "fn", "probe", "cfg", "sub", "dcf", "env", "lst", "dcfh"]
 
 
 def parser_spec(feats, eoe):
@@ -79,7 +79,8 @@ def parser_spec(feats, eoe):
         args.append({"k": "subcommands", "required": False, "cmds": {"fit": fit, "test": tst}})
     opts = {"exit_on_error": eoe, "default_env": "env" in feats}
     if "dcf" in feats:
-        opts["default_config_files"] = ["$W/dflt.yaml"]
+        # spelled absolute, or through '~' (HOME is read when the defaults are computed, i.e. at parse time)
+        opts["default_config_files"] = ["~/hd.yaml"] if "dcfh" in feats else ["$W/dflt.yaml"]
     return {"opts": opts, "args": args, "feats": sorted(feats)}
 
 
@@ -301,13 +302,24 @@ def generate(rng, tier):
         pi = rng.choice(dcf_parsers)
         first = rng.choice([{"kind": "args", "argv": ["--help"]}, {"kind": "args", "argv": ["--print_config"]}, {"kind": "defaults"}, {"kind": "dump", "argv": [], "kw": {"skip_default": True}}])
         ops += [dict(first, p=pi), {"p": pi, "kind": "edit", "file": "dflt.yaml", "text": rng.choice(FILE_ALTS["dflt.yaml"])}, {"p": pi, "kind": "defaults"}, {"p": pi, "kind": "args", "argv": []}]
+    home_parsers = [i for i, p in enumerate(parsers) if "dcf" in p["feats"] and "dcfh" in p["feats"]]
+    if home_parsers and rng.random() < 0.5:
+        # HOME changes between calls (a service started under one account dropping to another, tests that patch
+        # HOME): '~' in default_config_files means the home directory at the time of the call
+        pi = rng.choice(home_parsers)
+        first = rng.choice([{"kind": "args", "argv": []}, {"kind": "defaults"}, {"kind": "args", "argv": ["--a=3"]}, {"kind": "args", "argv": ["--help"]}])
+        ops += [dict(first, p=pi), {"p": pi, "kind": "edit", "env": "HOME", "value": "$W/home2"}, {"p": pi, "kind": "defaults"}, {"p": pi, "kind": "args", "argv": []}]
+        if rng.random() < 0.5:
+            ops += [{"p": pi, "kind": "edit", "env": "HOME", "value": "$W/home"}, {"p": pi, "kind": "args", "argv": []}]
     if rng.random() < (0.6 if not big else 1.0):
         pi = rng.randrange(nparsers)
         ops += [dict(b, p=pi) for b in rng.sample(BATTERY, rng.randint(2, 4))]
     nops = len(ops)
     world = {
-        "dirs": ["home", "run"],
+        "dirs": ["home", "home2", "run"],
         "files": {
+            "home/hd.yaml": "a: 11\n",
+            "home2/hd.yaml": "a: 22\n",
             "run/c1.yaml": "a: 5\n" + ("base: Sub1\n" if rng.random() < 0.5 and all("base" in p["feats"] for p in parsers) else ""),
             "run/c2.yaml": "a: 2\n" + ("base:\n  class_path: dsim.simtypes.Sub1\n  init_args:\n    n: 2\n" if any("base" in p["feats"] for p in parsers) else "") + ("bdef: Base\n" if any("bdef" in p["feats"] for p in parsers) else ""),
             "run/bad.yaml": "a: [1\n",
@@ -621,7 +633,7 @@ def _run_history(sc, ctx, sim, root, golden, srv, cwd0, ns0):
             elif op.get("value") is None:
                 os.environ.pop(op["env"], None)
             else:
-                os.environ[op["env"]] = op["value"]
+                os.environ[op["env"]] = op["value"].replace("$W", root)
             sim.probe("world-edit")
             ctx.record("edit", "-")
             continue
